@@ -13,5 +13,8 @@ G_batch_N == [h \in G_batch_Ops |-> IF h = "a" THEN 3 ELSE 2]
 G_mixed_Ops == {"a", "b", "c", "d"}
 G_mixed_Kind == [h \in G_mixed_Ops |-> CASE h = "a" -> "call" [] h = "c" -> "batch" [] OTHER -> "sub"]
 G_mixed_N == [h \in G_mixed_Ops |-> 2]
+G_faulty_Ops == {"a", "b", "c", "d"}
+G_faulty_Kind == [h \in G_faulty_Ops |-> CASE h = "b" -> "sub" [] h = "c" -> "batch" [] OTHER -> "call"]
+G_faulty_N == [h \in G_faulty_Ops |-> 2]
 NoShapes == {}
 =============================================================================
